@@ -14,7 +14,7 @@ RULE = ("generated Bloch programs (profile 'qasm': gates through functions, @qua
         "in range, cx on distinct qubits, the operation list equals the traced simulator operations of "
         "the last execution one-for-one, the listing is replayed on an independent state-vector "
         "interpreter with the recorded measure/reset outcomes and compared with the simulator's final "
-        "amplitudes (global phase, 1e-5 per rotation), and the .qasm file equals the --emit-qasm output.")
+        "amplitudes (global phase, 3e-7 per rotation: angles are printed with six decimals), and the .qasm file equals the --emit-qasm output.")
 ASSUMPTIONS = ["only the emitted subset of OpenQASM 2 is parsed (header, include, one qreg/creg, h x y z rx ry rz cx reset measure)",
                "the traced simulator operations (simPost hook) are the ground truth for 'every operation the program performed'",
                "programs allocate at least one qubit"]
@@ -120,7 +120,8 @@ def check_case(ctx, binary, case):
         nrot = sum(1 for o in ops if o[0] in ("rx", "ry", "rz"))
         d = qref.phase_dist(vec, act) if len(vec) == len(act) else float("inf")
         ctx.count("states_replayed")
-        if d > 1e-5 * (nrot + 1):
+        # a printed angle is off by at most 5e-7, i.e. at most 2.5e-7 in the state per rotation
+        if d > 3e-7 * nrot + 1e-9:
             ctx.violation("qasm:replay-state", "replaying the listing ends %.3g away from the simulator's "
                           "final state (%d rotations)" % (d, nrot), case, files)
 
